@@ -274,6 +274,7 @@ pub fn extract_tls_signature_from_client_hello(
     let mut signature_algorithms = Vec::new();
     let mut elliptic_curves = Vec::new();
     let mut elliptic_curve_point_formats = Vec::new();
+    let mut highest_supported_version: Option<u16> = None;
 
     // Parse extensions if present - if not present, we still generate JA4 with empty extension fields
     if let Some(ext_data) = &client_hello.ext {
@@ -307,6 +308,14 @@ pub fn extract_tls_signature_from_client_hello(
                         TlsExtension::EcPointFormats(formats) => {
                             elliptic_curve_point_formats = formats.to_vec();
                         }
+                        TlsExtension::SupportedVersions(versions) => {
+                            // JA4: highest non-GREASE value of the supported_versions list
+                            highest_supported_version = versions
+                                .iter()
+                                .map(|v| v.0)
+                                .filter(|v| !TLS_GREASE_VALUES.contains(v))
+                                .max();
+                        }
                         _ => {}
                     }
                 }
@@ -317,7 +326,10 @@ pub fn extract_tls_signature_from_client_hello(
         }
     }
 
-    let version = determine_tls_version(&client_hello.version, &extensions);
+    let version = match highest_supported_version {
+        Some(highest) => determine_tls_version(&tls_parser::TlsVersion(highest), &[]),
+        None => determine_tls_version(&client_hello.version, &extensions),
+    };
 
     Ok(Signature {
         version,
